@@ -275,6 +275,16 @@ def run(chk, repo, tier):
     chk.ob('R11.6', ok, QTY, repo.mod(QTY).tree.body[0], key='is_zero-import',
            qualname='<module>', what='qty.py uses Units.utils.is_zero')
     guard_vs_property(chk, repo, meths)
+    # constructors: what units a quantity carries (a bundle of quantities
+    # must agree on one dimension) is decided here
+    from .. import reviewed as _rv
+    for q in ('ArrayQuantity.__new__', 'ArrayQuantity.__array_finalize__',
+              'ArrayQuantity.__array_wrap__', 'ArrayQuantity.__getitem__',
+              'Quantity.__init__'):
+        _rv.check(chk, 'R11.6', repo, QTY, q,
+                  '%s (which units a new quantity carries; a bundle of '
+                  'quantities must agree on them) is unchanged in normal '
+                  'form from its reviewed reference' % q)
 
 
 def guard_vs_property(chk, repo, meths):
